@@ -43,6 +43,16 @@ def _m(repo, cq, name):
     return fn
 
 
+def _mi(repo, cq, name):
+    """The method as the class has it (own or inherited from a repository base class); undecided when it does not exist."""
+    m = repo.method(cq, name)
+    if m is None:
+        raise AnalysisError(f"{cq}.{name} not found (anchor vanished)")
+    fn = m[1]
+    fn._module = repo.cls(m[0])._module
+    return fn
+
+
 def _public_methods(cls):
     return [n for n in cls.body if isinstance(n, ast.FunctionDef) and not n.name.startswith("_")]
 
@@ -151,7 +161,7 @@ def _fan_out(ck, repo, nf):
 
 def _record_get(ck, repo, nf):
     for cq in (LG + "MemoryLogger", LG + "StandardLogger"):
-        fn = _m(repo, cq, "record_stat")
+        fn = _mi(repo, cq, "record_stat")
         ck.need(fn is not None, f"{cq}.record_stat not found")
         mi = fn._module
         cfg = nf.cfg_of(fn)
@@ -192,7 +202,7 @@ def _record_get(ck, repo, nf):
         ck.ob("R2-record-get", site, "location-tuple", not bad_tuple, f"{sorted(forms)[:3]}", "" if not bad_tuple else f"the location must be (episode, step, time) in this order; got {bad_tuple[:2]}", loc(mi, fn))
         ck.ob("R2-record-get", site, "defaults", not bad_default, "episode <- _n_episodes, step <- n_steps exactly when omitted (None)", "" if not bad_default else f"an explicitly given episode / step (including 0) must be recorded as given, an omitted one must default to the logger's counter: {bad_default[:2]}", loc(mi, fn))
         # get_stat: the x-axis value of a record is the element of the location tuple named by x_key, in recording order
-        g = _m(repo, cq, "get_stat")
+        g = _mi(repo, cq, "get_stat")
         gcfg = nf.cfg_of(g)
         keys = [n for n in ast.walk(g) if isinstance(n, (ast.List, ast.Tuple)) and len(n.elts) == 3 and all(isinstance(e, ast.Constant) and isinstance(e.value, str) for e in n.elts)]
         if not keys:
@@ -282,7 +292,7 @@ def _instance_state(ck, repo):
 
 
 def _save_then_list(ck, repo, nf):
-    fn = _m(repo, LG + "StandardLogger", "_save_checkpoint")
+    fn = _mi(repo, LG + "StandardLogger", "_save_checkpoint")
     mi = fn._module
     cfg = nf.cfg_of(fn)
     site = LG + "StandardLogger._save_checkpoint"
@@ -296,7 +306,7 @@ def _save_then_list(ck, repo, nf):
     p_save = nf.poly(save[0][1].args[0], sc, save[0][0].id).canon()
     p_app = nf.poly(app[0][1].args[0], sc, app[0][0].id).canon()
     ck.ob("R4-save-before-list", site, "same-path", p_save == p_app, f"saved {p_save[:60]} ; listed {p_app[:60]}", "" if p_save == p_app else "the listed path is not the one that was written", loc(mi, fn))
-    fn = _m(repo, OC, "_save_checkpoint")
+    fn = _mi(repo, OC, "_save_checkpoint")
     cfg = nf.cfg_of(fn)
     site = OC + "._save_checkpoint"
     save = stmt_calls(cfg, lambda c: isinstance(c.func, ast.Attribute) and c.func.attr == "save_model" and dotted(c.func.value) == "self")
@@ -312,7 +322,7 @@ def _save_then_list(ck, repo, nf):
 
 
 def _save_model_waits(ck, repo, nf):
-    fn = _m(repo, OC, "save_model")
+    fn = _mi(repo, OC, "save_model")
     cfg = nf.cfg_of(fn)
     save = stmt_calls(cfg, lambda c: isinstance(c.func, ast.Attribute) and c.func.attr == "save" and dotted(c.func.value) == "self.checkpointer")
     wait = stmt_calls(cfg, lambda c: isinstance(c.func, ast.Attribute) and c.func.attr == "wait_until_finished" and dotted(c.func.value) == "self.checkpointer")
@@ -323,7 +333,7 @@ def _save_model_waits(ck, repo, nf):
 
 def _cadence(ck, repo, nf):
     from ..sem import bool_equiv
-    fn = _m(repo, OC, "record_epoch")
+    fn = _mi(repo, OC, "record_epoch")
     mi = fn._module
     cfg = nf.cfg_of(fn)
     site = OC + ".record_epoch"
@@ -370,7 +380,7 @@ def _cadence(ck, repo, nf):
         if "step" not in v and "n_steps" not in v:
             raise AnalysisError(f"{site}: last_step[key] is set to `{v}` (unrecognised idiom)")
     ck.ob("R5-cadence", site, "last-step-updated-after-guard", ok, f"{[short(n.ast) for n in upd]}", "" if ok else "last_step[key] must be set to step on every path, after the test read the previous value (otherwise crossings are missed or counted again)", loc(mi, fn))
-    fn2 = _m(repo, OC, "define_checkpoint_frequency")
+    fn2 = _mi(repo, OC, "define_checkpoint_frequency")
     pe = PathEval(nf, nf.cfg_of(fn2), fn2._module, "dcf", {p: Poly.atom(p, {p}, {p}) for p in positional_params(fn2)})
     for nid, lab in enumerate_paths(nf.cfg_of(fn2), nf.cfg_of(fn2).entry, {nf.cfg_of(fn2).exit})[0][:-1]:
         pe.step(nid, lab)
@@ -380,7 +390,7 @@ def _cadence(ck, repo, nf):
     ck.ob("R5-cadence", OC + ".define_checkpoint_frequency", "initial-state", ok, f"{ {k: v for k, v in st.items() if '[key]' in k} }", "" if ok else "registration must initialise interval, an empty path list and last step 0", loc(fn2._module, fn2))
     # StandardLogger: the counter is advanced exactly once per record, the checkpoint is written iff the key is registered and the
     # advanced counter is a multiple of the interval
-    fn = _m(repo, LG + "StandardLogger", "record_epoch")
+    fn = _mi(repo, LG + "StandardLogger", "record_epoch")
     mi = fn._module
     cfg = nf.cfg_of(fn)
     site = LG + "StandardLogger.record_epoch"
